@@ -345,7 +345,7 @@ fn implode<V: ValT>(xs: &[V]) -> Result<Vec<u8>, Error<V>> {
     for x in xs {
         // on 32-bit systems, some high u32 values cannot be represented as isize
         let i = x.try_as_isize()?;
-        if let Ok(b) = u8::try_from(-i) {
+        if let Some(b) = i.checked_neg().and_then(|i| u8::try_from(i).ok()) {
             v.push(b)
         } else {
             // may fail e.g. on `[1114112] | implode`
